@@ -842,6 +842,9 @@ class Interferogram(RichData):
         """Strip the lateral calibration and revert to pixels."""
         self.dx = 1.
         self.x, self.y = make_xy_grid(self.data.shape, dx=self.dx)
+        # the polar coordinates are derived from x, y; drop them so they are
+        # recomputed from the new grid instead of going stale
+        self._r, self._t = None, None
         self._latcaled = False
         return self
 
@@ -866,6 +869,7 @@ class Interferogram(RichData):
         # sloppy to strip, but it is what it is
         self.x *= plate_scale
         self.y *= plate_scale
+        self._r, self._t = None, None
         self.dx = plate_scale
         self._latcaled = True
         return self
